@@ -60,7 +60,20 @@ def del_at(doc, path):
 def schema_mutant(rng, w):
     d = copy.deepcopy(w)
     nodes = list(walk(d))
-    kind = rng.choice(["unknown-key", "unknown-key", "wrong-type", "wrong-type", "missing-key", "missing-key", "bad-option", "bad-option", "root-type"])
+    kind = rng.choice(["unknown-key", "unknown-key", "wrong-type", "wrong-type", "missing-key", "missing-key", "bad-option", "bad-option", "root-type",
+                       "array-length", "array-length", "array-length"])
+    if kind == "array-length":
+        # an array one entry too short or too long (or empty); nested arrays preferred: a point with one coordinate, an Euler triple with two angles, a 3x2 matrix,
+        # a ridge with one point - the reader indexes these blindly, relying on the schema's minItems / maxItems
+        lists = [(p, n) for p, n in nodes if p and isinstance(n, list)]
+        nested = [(p, n) for p, n in lists if len(p) >= 2 and isinstance(p[-1], int)]
+        if not lists:
+            return "array-length", {}
+        p, n = rng.choice(nested if nested and rng.random() < 0.75 else lists)
+        how = rng.choice(["shorter", "shorter", "longer", "empty"])
+        new = list(n[:-1]) if how == "shorter" and n else ([] if how == "empty" else list(n) + [copy.deepcopy(n[-1]) if n else 0])
+        d = set_at(d, p, new)
+        return "array-length:" + how, d
     if kind == "unknown-key":
         dicts = [p for p, n in nodes if isinstance(n, dict)]
         p = rng.choice(dicts)
@@ -375,11 +388,47 @@ def run_groups(groups, variant, timeout=120):
     return res
 
 
+def published_schema():
+    """the schema the repository publishes (doc/world_builder_declarations.schema.json, regenerated and compared by the repository's own tests); the independent verdicts
+    are taken against THIS file, so that a change which weakens the schema the library enforces is not mirrored by the oracle"""
+    p = os.path.join(build_repo.REPO, "doc", "world_builder_declarations.schema.json")
+    return p if os.path.exists(p) else None
+
+
+def schema_drift():
+    """paths at which the schema dumped by the library under test differs from the published one"""
+    pub = published_schema()
+    if not pub:
+        return []
+    a, b = json.load(open(proto.schema()[0])), json.load(open(pub))
+    out = []
+    def cmp(x, y, path):
+        if len(out) >= 8:
+            return
+        if type(x) != type(y):
+            out.append((path, x if not isinstance(x, (dict, list)) else type(x).__name__, y if not isinstance(y, (dict, list)) else type(y).__name__)); return
+        if isinstance(x, dict):
+            for k in sorted(set(x) | set(y)):
+                if k not in x or k not in y:
+                    out.append((path + "/" + k, "absent" if k not in x else "present", "absent" if k not in y else "present"))
+                else:
+                    cmp(x[k], y[k], path + "/" + k)
+        elif isinstance(x, list):
+            if len(x) != len(y):
+                out.append((path, "length %d" % len(x), "length %d" % len(y))); return
+            for i, (u, v) in enumerate(zip(x, y)):
+                cmp(u, v, path + "/%d" % i)
+        elif x != y:
+            out.append((path, x, y))
+    cmp(a, b, "#")
+    return out
+
+
 def label_schema(paths):
     """independent schema verdicts via python jsonschema (tooling venv)"""
     lst = os.path.join(proto.workdir("C12"), "oracle.lst")
     open(lst, "w").write("\n".join(paths) + "\n")
-    r = subprocess.run(["python3-vt", SCHEMA_ORACLE, proto.schema()[0], lst], stdout=subprocess.PIPE, stderr=subprocess.PIPE, text=True)
+    r = subprocess.run(["python3-vt", SCHEMA_ORACLE, published_schema() or proto.schema()[0], lst], stdout=subprocess.PIPE, stderr=subprocess.PIPE, text=True)
     out = r.stdout.strip().split("\n") if r.stdout.strip() else []
     if r.returncode != 0 or len(out) != len(paths):
         raise RuntimeError("schema oracle failed: %s" % r.stderr[-500:])
@@ -460,6 +509,10 @@ def oracle(seed, tier):
     by_path = {}
     viol, samples = [], []
     stats = {}
+    drift = schema_drift()
+    if drift:
+        viol.append({"what": "the schema the library enforces differs from the published schema (doc/world_builder_declarations.schema.json) at %d place(s), first: %s" % (
+            len(drift), "; ".join("%s: library %r, published %r" % d for d in drift[:3])), "probe": None, "drift": [list(map(str, d)) for d in drift]})
     for d, r in zip(docs, res):
         outs, status, err = r if r else ([], "crash", "not run")
         first = outs[0] if outs else ""
